@@ -253,6 +253,9 @@ func main() {
 	for _, w := range corpus() {
 		cases = append(cases, loadCase(w.D, w.E, nil, w.Tag))
 	}
+	for _, w := range positionalCorpus() {
+		cases = append(cases, loadCase(w.D, w.E, nil, w.Tag))
+	}
 	cases = append(cases, corpusFiles(a.Corpus)...)
 	for _, t := range tmplCorpus() {
 		cases = append(cases, tmplCase(t.T, t.TV))
@@ -260,9 +263,14 @@ func main() {
 
 	nT := a.N / 10
 	nB := a.N / 25
-	for i := 0; i < a.N-nT-nB; i++ {
+	nP := a.N / 4 // positional stream: one defect at a uniformly drawn position of a multi-upstream document
+	for i := 0; i < a.N-nT-nB-nP; i++ {
 		d, e := genDoc(r)
 		cases = append(cases, loadCase(d, e, r, "gen"))
+	}
+	for i := 0; i < nP; i++ {
+		d, e, tag := genPositional(r)
+		cases = append(cases, loadCase(d, e, r, tag))
 	}
 	for i := 0; i < nB; i++ {
 		d, e := genDoc(r)
